@@ -451,6 +451,13 @@ func (w *World) BuildMsg(e Event) (msg sdk.Msg, commit func()) {
 				}
 			}
 			m := &bitcointypes.MsgFinalizeWithdrawal{Proposer: rel.Proposer, Pid: pid, Txid: sim.DSHA(b.Txs[ci]), BlockNumber: blk.Height, TxIndex: uint32(pos), IntermediateProof: blk.Proof(pos), BlockHeader: blk.Header}
+			if e.Var == "stale-header" {
+				// the header of a competing block at that height: well-formed, but not the voted one
+				h := append([]byte{}, blk.Header...)
+				h[70] ^= 1
+				m.BlockHeader = h
+				return m, func() {}
+			}
 			return m, func() { b.Open = false }
 		}
 		return nil, nil
